@@ -8,6 +8,7 @@ use crate::engine::{no_panic, replay_case, CaseReport, Run, Verdict};
 use crate::refimpl::writer::{self, WFile};
 use crate::viol;
 use lopdf::Document;
+use proptest::prelude::*;
 use serde_json::Value;
 use std::collections::BTreeMap;
 use std::io::{BufRead, BufReader, Read, Write};
@@ -172,13 +173,15 @@ pub fn check(f: &WFile) -> Verdict {
     let dup = containers_of.values().any(|v| v.len() >= 2);
     let n_containers: usize = out.structural.iter().map(|s| s.len()).sum::<usize>().saturating_sub(f.revisions.len());
     rep.label_if(dup, "number-in-two-containers");
+    rep.label_if(out.features.contains("quirk-orphan-number-in-two-containers"), "orphan-number-in-two-containers");
+    rep.label_if(out.features.contains("quirk-number-twice-in-one-container"), "number-twice-in-one-container");
     rep.label_if(n_containers >= 2, "containers>=2");
     rep.label_if(n_containers >= 4, "containers>=4");
     rep.label_if(blocks >= 2, "blocks>=2");
     rep.label_if(out.features.contains("indirect-length-in-objstm"), "indirect-length-in-objstm");
     rep.label_if(out.features.iter().any(|x| x.starts_with("indirect-length")), "indirect-length");
     rep.label_if(reference.starts_with("ok"), "loads-ok");
-    rep.nontrivial = n_containers >= 2 && dup;
+    rep.nontrivial = (n_containers >= 2 && dup) || out.features.iter().any(|x| x.starts_with("quirk-"));
     Ok(rep)
 }
 
@@ -203,7 +206,7 @@ pub fn opts(run: &Run) -> WOpts {
 }
 
 pub fn run(run: &mut Run) {
-    run.rule = "cases: REF-W files with cross-reference streams and object streams (up to ~10 containers over 1..3 revisions, object numbers redefined in later containers, zero-length streams, indirect lengths incl. lengths stored in object streams). Schedules: (1) hook H1 delivers the per-container blocks to the final merge in EVERY order (n! orders, n <= 6; exhaustive in the merge-order dimension), (2) loads inside rayon pools of 1,2,3,4,8,16 threads, repeated, (3) the no-default-features (sequential) build on the same bytes. Oracle: identical digest of (objects, trailer, max_id, version). In the seq configuration only (1) runs. non-trivial = >= 2 containers and >= 1 object number present in >= 2 containers; distinct by case hash.".into();
+    run.rule = "cases: REF-W files with cross-reference streams and object streams (up to ~10 containers over 1..3 revisions, object numbers redefined in later containers, zero-length streams, indirect lengths incl. lengths stored in object streams). Schedules: (1) hook H1 delivers the per-container blocks to the final merge in EVERY order (n! orders, n <= 6; exhaustive in the merge-order dimension), (2) loads inside rayon pools of 1,2,3,4,8,16 threads, repeated, (3) the no-default-features (sequential) build on the same bytes. Oracle: identical digest of (objects, trailer, max_id, version). In the seq configuration only (1) runs. Second campaign: the same files plus constructs outside the strict grammar that a lenient loader accepts (an object number named by no cross-reference entry present in two object streams; a number listed twice in one object stream). non-trivial = (>= 2 containers and >= 1 object number present in >= 2 containers) or one of those constructs present; distinct by case hash.".into();
     run.assumptions = vec![
         "hook H1 permutes whole blocks exactly as thread completion could order them (each block is appended under the mutex atomically)".into(),
         "interleavings inside rayon's collect are sampled by repetition only; no data race is possible (forbid(unsafe_code), Mutex)".into(),
@@ -213,6 +216,13 @@ pub fn run(run: &mut Run) {
     let o = opts(run);
     let n = run.tier.pick(120, 8000);
     run.campaign("schedules", || wfile_strategy(o), n, check, |_c, _v| None);
+    // the same, with constructs only a lenient reader accepts: a number that no cross-reference entry names present in two
+    // object streams, and a number listed more than once inside one object stream
+    let quirky = move || (wfile_strategy(o), 1u8..4).prop_map(|(mut f, q)| {
+        f.quirks = q;
+        f
+    });
+    run.campaign("schedules-lenient-files", quirky, n, check, |_c, _v| None);
     run.extra.insert("permuted_loads".into(), serde_json::json!(PERMUTED_LOADS.load(Ordering::Relaxed)));
     run.extra.insert("pool_loads".into(), serde_json::json!(POOL_LOADS.load(Ordering::Relaxed)));
     run.extra.insert("sequential_build_comparisons".into(), serde_json::json!(SEQ_COMPARISONS.load(Ordering::Relaxed)));
